@@ -174,7 +174,9 @@ def gen_tm_scatterer(rng):
     return dict(kind="cylinder", n=u(rng, 1.45, 1.6), d=u(rng, 0.4, 0.8), h=u(rng, 0.5, 1.2), rotation=rot, center=c)
 
 
-POLS = [[1, 0], [0, 1], [1, 1], [3, 4], [0.3, -0.7], [-2, 0.5], [0, -2.5], [1e-3, 5], [1, 1, 0], [0.6, 0.8]]
+POLS = [[1, 0], [0, 1], [1, 1], [3, 4], [0.3, -0.7], [-2, 0.5], [0, -2.5], [1e-3, 5], [1, 1, 0], [0.6, 0.8],
+        # nearly, but not exactly, of unit length (a hand-typed direction): still has to be normalised
+        [1, 0.004], [0.70711, 0.70711], [0.6, 0.80001], [-0.99999, 0.003], [0.0035, 1.0, 0]]
 
 
 def gen_pol(rng, tmatrix=False):
